@@ -29,7 +29,7 @@ package autodiff
 //@ for $R,$F,$T in (Real64,float64,@), (Real32,float32,+)
 //@ propsdefault C01$T C08$T
 //@ spec RI_$R(a *$R) bool =
-//@   a != nil && a.N >= 0 && a.Order >= 0 &&
+//@   a != nil && a.N >= 0 && a.Order >= 0 && a.Order <= 2 &&
 //@   (a.Order >= 1 ==> len(a.Derivative) == a.N) &&
 //@   (a.Order >= 2 ==> len(a.Hessian) == a.N &&
 //@      (forall i int :: 0 <= i && i < a.N ==> len(a.Hessian[i]) == a.N && base(a.Hessian[i]) != base(a.Derivative)) &&
@@ -70,16 +70,17 @@ package autodiff
 //@ for $R,$F,$T in (Real64,float64,@), (Real32,float32,+)
 //@ propsdefault C01$T C08$T
 //@ func (*$R).Alloc
-//@   requires RI_$R(a) && n >= 0 && order >= 0
+//@   requires RI_$R(a) && n >= 0 && order >= 0 && order <= 2
 //@   ensures RI_$R(a) && a.N == n && a.Order == order && a.Value == old(a.Value)
 //@   ensures @same (old(a.N) == n && old(a.Order) == order) ==> a.Derivative == old(a.Derivative) && a.Hessian == old(a.Hessian)
+//@   ensures @keep old(a.N) == n && old(a.Order) >= 1 && order >= 1 ==> a.Derivative == old(a.Derivative)
 //@   ensures @new !(old(a.N) == n && old(a.Order) == order) ==>
-//@      (order >= 1 ==> fresh(a.Derivative) && (forall i int :: 0 <= i && i < n ==> a.Derivative[i] == 0)) &&
+//@      (order >= 1 && !(old(a.N) == n && old(a.Order) >= 1) ==> fresh(a.Derivative) && (forall i int :: 0 <= i && i < n ==> a.Derivative[i] == 0)) &&
 //@      (order >= 2 ==> fresh(a.Hessian) && (forall i int :: 0 <= i && i < n ==> fresh(a.Hessian[i])) && (forall i int, j int :: 0 <= i && i < n && 0 <= j && j < n ==> a.Hessian[i][j] == 0))
 //@   modifies $R.N@{a}, $R.Order@{a}, $R.Derivative@{a}, $R.Hessian@{a}
 //@   loop 1 invariant 0 <= i && i <= n && a.N == n && a.Order == order && order >= 2 && a.Value == old(a.Value)
-//@   loop 1 invariant fresh(a.Derivative) && len(a.Derivative) == n && fresh(a.Hessian) && len(a.Hessian) == n && off(a.Hessian) == 0 && off(a.Derivative) == 0
-//@   loop 1 invariant forall k int :: 0 <= k && k < n ==> a.Derivative[k] == 0
+//@   loop 1 invariant len(a.Derivative) == n && fresh(a.Hessian) && len(a.Hessian) == n && off(a.Hessian) == 0
+//@   loop 1 invariant (old(a.N) == n && old(a.Order) >= 1 && a.Derivative == old(a.Derivative)) || (!(old(a.N) == n && old(a.Order) >= 1) && fresh(a.Derivative) && off(a.Derivative) == 0 && (forall k int :: 0 <= k && k < n ==> a.Derivative[k] == 0))
 //@   loop 1 invariant forall k int :: 0 <= k && k < i ==> fresh(a.Hessian[k]) && len(a.Hessian[k]) == n && off(a.Hessian[k]) == 0 && base(a.Hessian[k]) != base(a.Derivative) && base(a.Hessian[k]) != base(a.Hessian)
 //@   loop 1 invariant forall k int, l int :: 0 <= k && k < l && l < i ==> base(a.Hessian[k]) != base(a.Hessian[l])
 //@   loop 1 invariant forall k int, l int :: 0 <= k && k < i && 0 <= l && l < n ==> a.Hessian[k][l] == 0
@@ -153,9 +154,12 @@ package autodiff
 //@   (c.Order >= 1 ==> (forall i int :: 0 <= i && i < c.N ==> c.Derivative[i] == old(L2D(a, b, v10, v01, i)))) &&
 //@   (c.Order >= 2 ==> (forall i int, j int :: 0 <= i && i <= j && j < c.N ==>
 //@        c.Hessian[i][j] == old(L2H(a, b, v10, v01, v11, v20, v02, i, j)) && c.Hessian[j][i] == old(L2H(a, b, v10, v01, v11, v20, v02, i, j))))
-// the receiver may be an operand as long as it does not have to be re-allocated (see known_findings: mixed-order aliasing)
+// the receiver may be an operand, also when it has to be re-allocated for a higher order (Alloc keeps the gradient).
+// Excluded: a receiver that is an operand while the operands disagree on the number of variables (invalid use, but the
+// loud failure is lost: the check runs after the re-allocation) -- see DESIGN.md, C20.
+//@ spec alias_$R(c *$R, a ConstScalar) bool = is(*$R, a) && a.(*$R) == c
 //@ spec noRealloc_$R(c *$R, a ConstScalar, b ConstScalar) bool =
-//@   (is(*$R, a) && a.(*$R) == c) || (is(*$R, b) && b.(*$R) == c) ==> c.N == max(nvars(a), nvars(b)) && c.Order == max(order(a), order(b))
+//@   alias_$R(c, a) || alias_$R(c, b) ==> !(order(a) >= 1 && order(b) >= 1 && nvars(a) != nvars(b))
 
 //@ func (*$R).dyadic [also: (*$R).realDyadic]
 //@   model acmul
@@ -165,26 +169,30 @@ package autodiff
 //@   ensures lift2_post_$R(c, a, b, v0, v10, v01, v11, v20, v02)
 //@   modifies $R.Value@{c}, $R.N@{c}, $R.Order@{c}, $R.Derivative@{c}, $R.Hessian@{c}, []$F@{q :: owns_$R(c, q)}
 //@   loop 1 invariant 0 <= i && i <= c.N && c.Order >= 2 && RI_$R(c) && c.N == old(max(nvars(a), nvars(b))) && c.Order == old(max(order(a), order(b)))
-//@   loop 1 invariant order(a) == old(order(a)) && nvars(a) == old(nvars(a)) && order(b) == old(order(b)) && nvars(b) == old(nvars(b))
+//@   loop 1 invariant (!alias_$R(c, a) ==> order(a) == old(order(a)) && nvars(a) == old(nvars(a))) && (!alias_$R(c, b) ==> order(b) == old(order(b)) && nvars(b) == old(nvars(b)))
 //@   loop 1 invariant forall k int :: 0 <= k && k < c.N ==> D(a, k) == old(D(a, k))
 //@   loop 1 invariant forall k int :: 0 <= k && k < c.N ==> D(b, k) == old(D(b, k))
 //@   loop 1 invariant forall p int, q int :: 0 <= p && p < i && p <= q && q < c.N ==> c.Hessian[p][q] == old(L2H(a, b, v10, v01, v11, v20, v02, p, q)) && c.Hessian[q][p] == old(L2H(a, b, v10, v01, v11, v20, v02, p, q))
-//@   loop 1 invariant forall p int, q int :: i <= p && p <= q && q < c.N ==> H(a, p, q) == old(H(a, p, q))
-//@   loop 1 invariant forall p int, q int :: i <= p && p <= q && q < c.N ==> H(b, p, q) == old(H(b, p, q))
+//@   loop 1 invariant !alias_$R(c, a) ==> (forall p int, q int :: 0 <= p && p < c.N && 0 <= q && q < c.N ==> H(a, p, q) == old(H(a, p, q)))
+//@   loop 1 invariant alias_$R(c, a) ==> (forall p int, q int :: i <= p && p <= q && q < c.N ==> c.Hessian[p][q] == old(H(a, p, q)))
+//@   loop 1 invariant !alias_$R(c, b) ==> (forall p int, q int :: 0 <= p && p < c.N && 0 <= q && q < c.N ==> H(b, p, q) == old(H(b, p, q)))
+//@   loop 1 invariant alias_$R(c, b) ==> (forall p int, q int :: i <= p && p <= q && q < c.N ==> c.Hessian[p][q] == old(H(b, p, q)))
 //@   loop 1 invariant forall r int, k int :: r < old(alloc) && !old(owns_$R(c, r)) ==> row($F, r)[k] == old(row($F, r)[k])
 //@   loop 1 decreases c.N - i
 //@   loop 2 invariant 0 <= i && i < c.N && i <= j && j <= c.N && c.Order >= 2 && RI_$R(c) && c.N == old(max(nvars(a), nvars(b))) && c.Order == old(max(order(a), order(b)))
-//@   loop 2 invariant order(a) == old(order(a)) && nvars(a) == old(nvars(a)) && order(b) == old(order(b)) && nvars(b) == old(nvars(b))
+//@   loop 2 invariant (!alias_$R(c, a) ==> order(a) == old(order(a)) && nvars(a) == old(nvars(a))) && (!alias_$R(c, b) ==> order(b) == old(order(b)) && nvars(b) == old(nvars(b)))
 //@   loop 2 invariant forall k int :: 0 <= k && k < c.N ==> D(a, k) == old(D(a, k))
 //@   loop 2 invariant forall k int :: 0 <= k && k < c.N ==> D(b, k) == old(D(b, k))
 //@   loop 2 invariant forall p int, q int :: 0 <= p && p < i && p <= q && q < c.N ==> c.Hessian[p][q] == old(L2H(a, b, v10, v01, v11, v20, v02, p, q)) && c.Hessian[q][p] == old(L2H(a, b, v10, v01, v11, v20, v02, p, q))
 //@   loop 2 invariant forall q int :: i <= q && q < j ==> c.Hessian[i][q] == old(L2H(a, b, v10, v01, v11, v20, v02, i, q)) && c.Hessian[q][i] == old(L2H(a, b, v10, v01, v11, v20, v02, i, q))
-//@   loop 2 invariant forall p int, q int :: i <= p && p <= q && q < c.N && !(p == i && q < j) ==> H(a, p, q) == old(H(a, p, q))
-//@   loop 2 invariant forall p int, q int :: i <= p && p <= q && q < c.N && !(p == i && q < j) ==> H(b, p, q) == old(H(b, p, q))
+//@   loop 2 invariant !alias_$R(c, a) ==> (forall p int, q int :: 0 <= p && p < c.N && 0 <= q && q < c.N ==> H(a, p, q) == old(H(a, p, q)))
+//@   loop 2 invariant alias_$R(c, a) ==> (forall p int, q int :: i <= p && p <= q && q < c.N && !(p == i && q < j) ==> c.Hessian[p][q] == old(H(a, p, q)))
+//@   loop 2 invariant !alias_$R(c, b) ==> (forall p int, q int :: 0 <= p && p < c.N && 0 <= q && q < c.N ==> H(b, p, q) == old(H(b, p, q)))
+//@   loop 2 invariant alias_$R(c, b) ==> (forall p int, q int :: i <= p && p <= q && q < c.N && !(p == i && q < j) ==> c.Hessian[p][q] == old(H(b, p, q)))
 //@   loop 2 invariant forall r int, k int :: r < old(alloc) && !old(owns_$R(c, r)) ==> row($F, r)[k] == old(row($F, r)[k])
 //@   loop 2 decreases c.N - j
 //@   loop 3 invariant 0 <= i && i <= c.N && c.Order >= 1 && RI_$R(c) && c.N == old(max(nvars(a), nvars(b))) && c.Order == old(max(order(a), order(b)))
-//@   loop 3 invariant order(a) == old(order(a)) && nvars(a) == old(nvars(a)) && order(b) == old(order(b)) && nvars(b) == old(nvars(b))
+//@   loop 3 invariant (!alias_$R(c, a) ==> order(a) == old(order(a)) && nvars(a) == old(nvars(a))) && (!alias_$R(c, b) ==> order(b) == old(order(b)) && nvars(b) == old(nvars(b)))
 //@   loop 3 invariant forall k int :: i <= k && k < c.N ==> D(a, k) == old(D(a, k))
 //@   loop 3 invariant forall k int :: i <= k && k < c.N ==> D(b, k) == old(D(b, k))
 //@   loop 3 invariant forall k int :: 0 <= k && k < i ==> c.Derivative[k] == old(L2D(a, b, v10, v01, k))
@@ -275,7 +283,7 @@ package autodiff
 //@   errors_when order > 2 || order < 0
 //@   ensures (order > 2 || order < 0) ==> a.N == old(a.N) && a.Order == old(a.Order) && a.Derivative == old(a.Derivative) && a.Hessian == old(a.Hessian)
 //@   ensures order <= 2 && order >= 0 ==> RI_$R(a) && a.N == n && a.Order == order && a.Value == old(a.Value) && (order >= 1 ==> a.Derivative[i] == 1)
-//@   ensures @seed order <= 2 && order >= 1 && !(old(a.N) == n && old(a.Order) == order) ==> (forall k int :: 0 <= k && k < n && k != i ==> a.Derivative[k] == 0) &&
+//@   ensures @seed order <= 2 && order >= 1 ==> (forall k int :: 0 <= k && k < n && k != i ==> a.Derivative[k] == 0) &&
 //@        (order >= 2 ==> (forall p int, q int :: 0 <= p && p < n && 0 <= q && q < n ==> a.Hessian[p][q] == 0))
 //@   modifies $R.N@{a}, $R.Order@{a}, $R.Derivative@{a}, $R.Hessian@{a}, []$F@{q :: owns_$R(a, q)}
 //@ end
@@ -316,26 +324,30 @@ package autodiff
 //@   ensures lift2_post_$R(c, a, b, v0, old(call0(f1)), old(call1(f1)), old(call0(f2)), old(call1(f2)), old(call2(f2)))
 //@   modifies $R.Value@{c}, $R.N@{c}, $R.Order@{c}, $R.Derivative@{c}, $R.Hessian@{c}, []$F@{q :: owns_$R(c, q)}
 //@   loop 1 invariant 0 <= i && i <= c.N && c.Order >= 2 && RI_$R(c) && c.N == old(max(nvars(a), nvars(b))) && c.Order == old(max(order(a), order(b)))
-//@   loop 1 invariant order(a) == old(order(a)) && nvars(a) == old(nvars(a)) && order(b) == old(order(b)) && nvars(b) == old(nvars(b))
+//@   loop 1 invariant (!alias_$R(c, a) ==> order(a) == old(order(a)) && nvars(a) == old(nvars(a))) && (!alias_$R(c, b) ==> order(b) == old(order(b)) && nvars(b) == old(nvars(b)))
 //@   loop 1 invariant forall k int :: 0 <= k && k < c.N ==> D(a, k) == old(D(a, k))
 //@   loop 1 invariant forall k int :: 0 <= k && k < c.N ==> D(b, k) == old(D(b, k))
 //@   loop 1 invariant forall p int, q int :: 0 <= p && p < i && p <= q && q < c.N ==> c.Hessian[p][q] == old(L2H(a, b, v10, v01, v11, v20, v02, p, q)) && c.Hessian[q][p] == old(L2H(a, b, v10, v01, v11, v20, v02, p, q))
-//@   loop 1 invariant forall p int, q int :: i <= p && p <= q && q < c.N ==> H(a, p, q) == old(H(a, p, q))
-//@   loop 1 invariant forall p int, q int :: i <= p && p <= q && q < c.N ==> H(b, p, q) == old(H(b, p, q))
+//@   loop 1 invariant !alias_$R(c, a) ==> (forall p int, q int :: 0 <= p && p < c.N && 0 <= q && q < c.N ==> H(a, p, q) == old(H(a, p, q)))
+//@   loop 1 invariant alias_$R(c, a) ==> (forall p int, q int :: i <= p && p <= q && q < c.N ==> c.Hessian[p][q] == old(H(a, p, q)))
+//@   loop 1 invariant !alias_$R(c, b) ==> (forall p int, q int :: 0 <= p && p < c.N && 0 <= q && q < c.N ==> H(b, p, q) == old(H(b, p, q)))
+//@   loop 1 invariant alias_$R(c, b) ==> (forall p int, q int :: i <= p && p <= q && q < c.N ==> c.Hessian[p][q] == old(H(b, p, q)))
 //@   loop 1 invariant forall r int, k int :: r < old(alloc) && !old(owns_$R(c, r)) ==> row($F, r)[k] == old(row($F, r)[k])
 //@   loop 1 decreases c.N - i
 //@   loop 2 invariant 0 <= i && i < c.N && i <= j && j <= c.N && c.Order >= 2 && RI_$R(c) && c.N == old(max(nvars(a), nvars(b))) && c.Order == old(max(order(a), order(b)))
-//@   loop 2 invariant order(a) == old(order(a)) && nvars(a) == old(nvars(a)) && order(b) == old(order(b)) && nvars(b) == old(nvars(b))
+//@   loop 2 invariant (!alias_$R(c, a) ==> order(a) == old(order(a)) && nvars(a) == old(nvars(a))) && (!alias_$R(c, b) ==> order(b) == old(order(b)) && nvars(b) == old(nvars(b)))
 //@   loop 2 invariant forall k int :: 0 <= k && k < c.N ==> D(a, k) == old(D(a, k))
 //@   loop 2 invariant forall k int :: 0 <= k && k < c.N ==> D(b, k) == old(D(b, k))
 //@   loop 2 invariant forall p int, q int :: 0 <= p && p < i && p <= q && q < c.N ==> c.Hessian[p][q] == old(L2H(a, b, v10, v01, v11, v20, v02, p, q)) && c.Hessian[q][p] == old(L2H(a, b, v10, v01, v11, v20, v02, p, q))
 //@   loop 2 invariant forall q int :: i <= q && q < j ==> c.Hessian[i][q] == old(L2H(a, b, v10, v01, v11, v20, v02, i, q)) && c.Hessian[q][i] == old(L2H(a, b, v10, v01, v11, v20, v02, i, q))
-//@   loop 2 invariant forall p int, q int :: i <= p && p <= q && q < c.N && !(p == i && q < j) ==> H(a, p, q) == old(H(a, p, q))
-//@   loop 2 invariant forall p int, q int :: i <= p && p <= q && q < c.N && !(p == i && q < j) ==> H(b, p, q) == old(H(b, p, q))
+//@   loop 2 invariant !alias_$R(c, a) ==> (forall p int, q int :: 0 <= p && p < c.N && 0 <= q && q < c.N ==> H(a, p, q) == old(H(a, p, q)))
+//@   loop 2 invariant alias_$R(c, a) ==> (forall p int, q int :: i <= p && p <= q && q < c.N && !(p == i && q < j) ==> c.Hessian[p][q] == old(H(a, p, q)))
+//@   loop 2 invariant !alias_$R(c, b) ==> (forall p int, q int :: 0 <= p && p < c.N && 0 <= q && q < c.N ==> H(b, p, q) == old(H(b, p, q)))
+//@   loop 2 invariant alias_$R(c, b) ==> (forall p int, q int :: i <= p && p <= q && q < c.N && !(p == i && q < j) ==> c.Hessian[p][q] == old(H(b, p, q)))
 //@   loop 2 invariant forall r int, k int :: r < old(alloc) && !old(owns_$R(c, r)) ==> row($F, r)[k] == old(row($F, r)[k])
 //@   loop 2 decreases c.N - j
 //@   loop 3 invariant 0 <= i && i <= c.N && c.Order >= 1 && RI_$R(c) && c.N == old(max(nvars(a), nvars(b))) && c.Order == old(max(order(a), order(b)))
-//@   loop 3 invariant order(a) == old(order(a)) && nvars(a) == old(nvars(a)) && order(b) == old(order(b)) && nvars(b) == old(nvars(b))
+//@   loop 3 invariant (!alias_$R(c, a) ==> order(a) == old(order(a)) && nvars(a) == old(nvars(a))) && (!alias_$R(c, b) ==> order(b) == old(order(b)) && nvars(b) == old(nvars(b)))
 //@   loop 3 invariant forall k int :: i <= k && k < c.N ==> D(a, k) == old(D(a, k))
 //@   loop 3 invariant forall k int :: i <= k && k < c.N ==> D(b, k) == old(D(b, k))
 //@   loop 3 invariant forall k int :: 0 <= k && k < i ==> c.Derivative[k] == old(L2D(a, b, v10, v01, k))
